@@ -98,4 +98,10 @@ def obligations(tier, ctx):
                           pre=[f"0 <= i < {N_TEXTS}", ("mi in (1, 3)" if where in (0, 4, 5) else "mi in (0, 1)" if where == 2 else "mi == 3"), ("hsel in (0, 6)" if where != 4 else "hsel in (6, 7)")] + (["has"] if where == 0 else []),
                           call=f"H.dispatch_text(mi, i, {where}, hsel, has)", backend=be, timeout=600,
                           family="content corpus: id / tool argument / tool name or uri / method name / exception text that is 'active' text (templates, separators, control and zero-width characters, JSON-looking)"))
+    for has in (True, False):
+        for be in (("P",) if tier == "quick" else ("F", "P")):
+            obs.append(Ob(name=f"after_{'id' if has else 'noid'}_{be}", params=[("mi", "int"), ("ev", "int"), ("hsel", "int"), ("psel", "int")] + ([("rid", "int")] if be == "F" and has else []),
+                          pre=[(f"0 <= mi < {N}" if tier != "quick" else "mi in (1, 3, 5, 7, 8, 9, 12)"), "0 <= ev <= 7", "hsel in (0, 6)", "psel in (0, 6, 7)"],
+                          call=f"H.dispatch_after(mi, {has}, {('rid' if be == 'F' else '7') if has else 'None'}, ev, hsel, psel)", backend=be, timeout=900,
+                          family="after an earlier message on the same server (same method in the other form, failing handlers, unregistered methods, reused id, malformed call, initialize)"))
     return obs
